@@ -41,6 +41,8 @@ TABLE = {
             (("SymbolicMaths.equal(", ".iteration_space != "),
              "comparing the iteration spaces of the two loops"),
             ("abs(node1.position - node2.position)", "checking adjacency"),
+            ("self._validate_written_", "checking the variables written "
+             "in the loops", ("force",)),
         ],
         "per_iteration": [
             ("self._validate_written_",
@@ -57,8 +59,10 @@ TABLE = {
         "consults": [("super().validate(", "the generic loop validation"),
                      ("node.walk(", "looking for impure calls / nested "
                       "loops"),
-                     (".symbol_table.is_empty()", "checking for symbols "
-                      "declared in the inner scopes")],
+                     ("outer_sched.symbol_table.is_empty()", "checking for "
+                      "symbols declared in the outer loop body"),
+                     ("inner_sched.symbol_table.is_empty()", "checking for "
+                      "symbols declared in the inner loop body")],
     },
     ("ChunkLoopTrans", "validate"): {
         "raises": 10,
